@@ -40,6 +40,16 @@ CLAIMED = {
         technique="Rocq proof (encoder equality, model-to-model decoder agreement, decision rule for from_value) + regenerated constants + in-Coq differential correspondence",
         design="5/C14",
     ),
+    "C16": dict(
+        text="Theorems (Props/C16.v): in-range headers and blocks are encoded exactly as the SEMI E4 layout and decode back (C16_header_exact, C16_block_exact); "
+             "any body splits into <=244-byte blocks numbered 1..n with the end bit on the last only, other fields preserved, data concatenating to the body "
+             "(C16_split); in any received trace - blocks of other system bytes interleaved anywhere - the blocks of one message yield its body under its last "
+             "block's header, exactly once (C16_reassembly_interleaved, locality + induction over the trace); a block with any single byte altered is never "
+             "accepted (C16_corruption_detected: arithmetic on the checksum, no wrap below 65536). Framing constants are regenerated from the source.",
+        note=NOTE_COMMON + " The reassembled message reports the last block's header (block number n); messages above 32767 blocks are outside the statement.",
+        technique="Rocq proof (bit-level header lemmas, trace induction with a per-system-id locality lemma, checksum arithmetic) + regenerated constants + in-Coq differential correspondence",
+        design="5/C16",
+    ),
 }
 
 NOT_YET = {}
